@@ -303,9 +303,12 @@ func IsSafe(v Value, typ string) bool {
 	return safe
 }
 
-// safeInner returns the value stored in v; nil if v gets its methods from an
-// embedded SafeValue that is nil.
+// safeInner returns the value stored in v; nil if v is a nil pointer or gets
+// its methods from an embedded SafeValue that is nil.
 func safeInner(v SafeValue) Value {
+	if isNilPointer(v) {
+		return nil
+	}
 	return callPromoted(v, "Value", func() Value { return v.Value() })
 }
 
